@@ -36,6 +36,7 @@ META = {
     "bounds": [
         "dependency graphs on 3 named complex types (6 edge booleans, plus a union-typed attribute and nested sequence/choice groups), rendered as an XSD text and pushed through the real pipeline",
         "set iteration: every `set(...)` built in 12 codegen modules iterates in an order chosen by 4 symbolic picks (each 0..2, reused cyclically); id(): distinct integers ordered by the same picks",
+        "reproducible_multi: sets of three schemas in three namespaces / files (module paths differing in two parts) with same-named / case-colliding types, so that import aliases are computed; 4 name triples x 3 structure bits x the same pick vectors",
         "structure styles as partitions (quick: filenames, clusters, single-package; thorough: all five)",
         "selector driven: every (graph, pick vector) in the bound is executed; each path runs concretely",
     ],
@@ -74,6 +75,34 @@ class PermSet(set):
         while items:
             out.append(items.pop(_next_pick() % len(items)))
         return iter(out)
+
+    # the results of set algebra are sets too (the built-in operators return a plain `set` for subclasses)
+    def __sub__(self, other):
+        return PermSet(set.__sub__(self, other))
+
+    def __and__(self, other):
+        return PermSet(set.__and__(self, other))
+
+    def __or__(self, other):
+        return PermSet(set.__or__(self, other))
+
+    def __xor__(self, other):
+        return PermSet(set.__xor__(self, other))
+
+    def difference(self, *others):
+        return PermSet(set.difference(self, *others))
+
+    def union(self, *others):
+        return PermSet(set.union(self, *others))
+
+    def intersection(self, *others):
+        return PermSet(set.intersection(self, *others))
+
+    def symmetric_difference(self, other):
+        return PermSet(set.symmetric_difference(self, other))
+
+    def copy(self):
+        return PermSet(set.copy(self))
 
 
 def _fake_id(obj):
@@ -126,7 +155,7 @@ def _xsd(bits):
 STYLES = list(StructureStyle)
 
 
-def _generate(bits, style, picks):
+def _generate(bits, style, picks, multi=None):
     _install()
     _PICKS[:] = picks
     _CURSOR[0] = 0
@@ -135,11 +164,16 @@ def _generate(bits, style, picks):
     cfg = GeneratorConfig()
     cfg.output.structure_style = STYLES[style]
     cfg.output.compound_fields.enabled = bool(PART.get("compound", 0))
-    schema = SchemaParser(location="file:///t.xsd").from_string(_xsd(bits))
-    classes = SchemaMapper.map(schema)
-    container = ClassContainer(config=cfg)
-    container.extend(classes)
-    container.process()
+    if multi is not None:
+        from harness import multins
+
+        container = multins.container_for(multins.schema_set(*multi), cfg)
+    else:
+        schema = SchemaParser(location="file:///t.xsd").from_string(_xsd(bits))
+        classes = SchemaMapper.map(schema)
+        container = ClassContainer(config=cfg)
+        container.extend(classes)
+        container.process()
     out = []
     for cls in sorted(container, key=lambda c: c.qname):
         attrs = []
@@ -178,6 +212,47 @@ def reproducible(e0: bool, e1: bool, e2: bool, e3: bool, e4: bool, e5: bool, p0:
         return result(_same(bits, picks))
 
 
+MULTI_NAMES = [("Foo", "Foo", "Foo"), ("Foo", "Foo", "Bar"), ("Foo", "foo", "Order"), ("Foo", "Bar", "Baz")]
+
+
+def reproducible_multi(names: int, choice: bool, local: bool, cross: bool, p0: int, p1: int, p2: int, p3: int) -> bool:
+    """
+    pre: names == PART.get("names", 0)
+    pre: 0 <= p0 <= 2
+    pre: 0 <= p1 <= 2
+    pre: 0 <= p2 <= 2
+    pre: 0 <= p3 <= 2
+    post: _
+    """
+    n = concretize(names, len(MULTI_NAMES))
+    bits = [bool(concretize(int(b), 2)) for b in (choice, local, cross)]
+    picks = [concretize(p, 3) for p in (p0, p1, p2, p3)]
+    with untraced():
+        return result(_same_multi(n, bits, picks))
+
+
+def _same_multi(n, bits, picks):
+    """Three schemas in three namespaces / files whose module paths differ in two parts (acme/billing/v1 vs acme/shipping/v2): same-named
+    classes imported into one module get aliases computed from set differences of the path parts."""
+    style = PART.get("style", 0)
+    multi = MULTI_NAMES[n] + tuple(bits)
+    if multi not in _BASE:
+        _BASE[multi] = _generate(None, style, [0, 0, 0, 0], multi)
+    return _BASE[multi] == _generate(None, style, picks, multi)
+
+
+_BASE = {}
+
+
+def explain_multi(names, choice, local, cross, p0, p1, p2, p3):
+    style = PART.get("style", 0)
+    multi = MULTI_NAMES[names] + (choice, local, cross)
+    base = _generate(None, style, [0, 0, 0, 0], multi)
+    got = _generate(None, style, [p0, p1, p2, p3], multi)
+    diff = [(a, b) for a, b in zip(base[0] + base[1], got[0] + got[1]) if a != b][:2]
+    return {"names": MULTI_NAMES[names], "style": STYLES[style].value, "first_differences": repr(diff)[:1500]}
+
+
 def _same(bits, picks):
     style = PART.get("style", 0)
     base = _generate(bits, style, [0, 0, 0, 0])
@@ -195,7 +270,7 @@ def explain(e0, e1, e2, e3, e4, e5, p0, p1, p2, p3):
 
 
 PRE = {}
-EXPLAIN = {"reproducible": explain}
+EXPLAIN = {"reproducible": explain, "reproducible_multi": explain_multi}
 
 
 def plan(tier):
@@ -206,4 +281,8 @@ def plan(tier):
             for e1 in (0, 1):
                 for compound in ((0,) if tier == "quick" else (0, 1)):
                     jobs.append(Job("reproducible", {"style": style, "e0": e0, "e1": e1, "compound": compound}, 600 if tier == "quick" else 3000, 60, note="selector driven"))
+    for style in ([0, 1] if tier == "quick" else range(len(STYLES))):
+        for compound in (0, 1):
+            for names in range(len(MULTI_NAMES)):
+                jobs.append(Job("reproducible_multi", {"style": style, "compound": compound, "names": names}, 900 if tier == "quick" else 3000, 60, note="selector driven, three namespaces / files"))
     return jobs
